@@ -280,8 +280,9 @@ Transfer SetResult(Core* self)
 __CPROVER_requires(g.stores == 1 && g.set_results == 0)       /* C01 producer contract: Store precedes SetResult, once */
 __CPROVER_assigns(g.set_results, g.t_set_result, g.clock)
 __CPROVER_ensures(g.set_results == 1 && g.t_set_result == OLD(g.clock) && g.clock == OLD(g.clock) + 1 && RET == (Transfer)g_next_step);
-Val MoveOrConst(Core* c, int cond) __CPROVER_requires(c != 0) __CPROVER_assigns()
-__CPROVER_ensures(RET.kind == K_RESULT && RET.state == c->_result.state && RET.tag == c->_result.tag);
+unsigned g_mv_calls; int g_mv_cond; Core* g_mv_core;      /* how a Result was taken out of a core: moved (cond) or read through a const reference */
+Val MoveOrConst(Core* c, int cond) __CPROVER_requires(c != 0) __CPROVER_assigns(g_mv_calls, g_mv_cond, g_mv_core)
+__CPROVER_ensures(RET.kind == K_RESULT && RET.state == c->_result.state && RET.tag == c->_result.tag && g_mv_calls == OLD(g_mv_calls) + 1 && g_mv_cond == cond && g_mv_core == c);
 """
 
 CONTRACT_VOID = r"""Val CallResolveVoid(Core* self, Val value)
@@ -571,7 +572,13 @@ __CPROVER_requires(g_ci_calls == 0 && g.dones == 0 && g.submits == 0 && g_transf
 __CPROVER_requires(CFG_RUN ? ((self->_self.caller == 0 && self->_executor != 0) || (CFG_ASYNC != 0 && self->_self.caller == caller)) : 1)
 __CPROVER_requires((!CFG_RUN && CFG_ASYNC && self->_self.unwrapping) ? self->_self.caller == caller : 1)
 __CPROVER_requires((!CFG_RUN && !(CFG_ASYNC && self->_self.unwrapping)) ? self->_self.caller == 0 : 1)
-__CPROVER_assigns(g_ci_calls, g_ci_arg, g.dones, g_done_async, g_done_val, g.submits, g.submit_to, g_transfers, g_tr_from, g_tr_to, g_tr_shared, self->_executor, g.caller_increfs, self->_self.caller)
+__CPROVER_requires(g_mv_calls == 0)
+__CPROVER_assigns(g_ci_calls, g_ci_arg, g.dones, g_done_async, g_done_val, g.submits, g.submit_to, g_transfers, g_tr_from, g_tr_to, g_tr_shared, self->_executor, g.caller_increfs, self->_self.caller, g_mv_calls, g_mv_cond, g_mv_core)
+/* C06 / C02: a Result is MOVED out of a core only when this step is its only reader: the awaited inner state of a Future / Task (never of a SharedFuture), a unique predecessor (never a shared one);
+   everything else is read through a const reference, so later observers of the same SharedFuture still see the value */
+__CPROVER_ensures(WAS_UNWRAP ==> (g_mv_calls == 1 && g_mv_core == caller && (g_mv_cond != 0) == (CFG_ASYNC != 2)))
+__CPROVER_ensures((FIRST_VISIT && !CFG_CALL) ==> (g_mv_calls == 1 && g_mv_core == caller && (g_mv_cond != 0) == !CFG_FROM_SHARED))
+__CPROVER_ensures((HEAD_START || (FIRST_VISIT && CFG_CALL)) ==> g_mv_calls == 0)
 /* C12 / C02 / C13: a first step (Schedule / Run core) that has not run yet and is reached through Here / Next is the head of a lazy chain whose caller is its continuation (the step that returned
    this Task or the coroutine awaiting it): it is STARTED - exactly one Submit of itself on its own executor, as detail::Start does - and nothing is read from the caller */
 __CPROVER_ensures(HEAD_START ==> (g.submits == 1 && g.submit_to == OLD(self->_executor) && g.dones == 0 && g_ci_calls == 0 && g_transfers == 0 && g.caller_increfs == 0 && self->_self.caller == 0 && RET == (Transfer)0))
@@ -586,7 +593,7 @@ __CPROVER_ensures(FIRST_VISIT ==> g.caller_increfs == ((CFG_FROM_SHARED && (CFG_
 __CPROVER_ensures((FIRST_VISIT && CFG_CALL) ==> (g.submits == 1 && g.submit_to == g_exec_after_transfer && g_ci_calls == 0 && RET == (Transfer)0))
 __CPROVER_ensures((FIRST_VISIT && !CFG_CALL) ==> (g.submits == 0 && g_ci_calls == 1 && g_ci_arg.kind == K_RESULT && g_ci_arg.state == caller->_result.state && g_ci_arg.tag == caller->_result.tag && RET == g_ci_ret))
 """.replace('WAS_UNWRAP', '((CFG_RUN && OLD(self->_self.caller) != 0) || (!CFG_RUN && CFG_ASYNC && OLD(self->_self.unwrapping) != 0))').replace('HEAD_START', '(CFG_RUN && OLD(self->_self.caller) == 0)').replace('FIRST_VISIT', '(!CFG_RUN && !(CFG_ASYNC && OLD(self->_self.unwrapping) != 0))')
-        harness = 'void harness(void) { ghost_reset(); g_ci_calls = 0; g_transfers = 0; Core* self; Core* caller; Impl(self, caller); if (g.dones) VF_CANARY("unwrapped"); else if (g.submits) VF_CANARY("submitted"); else VF_CANARY("ran inline"); }\n'
+        harness = 'void harness(void) { ghost_reset(); g_ci_calls = 0; g_transfers = 0; g_mv_calls = 0; Core* self; Core* caller; Impl(self, caller); if (g.dones) VF_CANARY("unwrapped"); else if (g.submits) VF_CANARY("submitted"); else VF_CANARY("ran inline"); }\n'
         ncan = 1 + (1 if k['CFG_ASYNC'] else 0)
         out.append(Job('core/Impl.' + nm, props, head + contract + '{ VF_ALIAS(self->_self.caller, caller); ' + c_impl + '}\n' + harness, 'harness', enforce='Impl',
                        replace=['CallImpl', 'Done', 'MoveOrConst', 'TransferExecutorTo', 'IncRef', 'Submit'], funcs=[B['Core::Impl']], canaries=ncan,
@@ -599,13 +606,16 @@ __CPROVER_ensures((FIRST_VISIT && !CFG_CALL) ==> (g.submits == 0 && g_ci_calls =
             contract = """void Call(Core* self)
 __CPROVER_requires(__CPROVER_is_fresh(self, sizeof(*self)) && g_ci_calls == 0 && g_loops == 0 && self->_self.unwrapping == 0 && !g.union_is_result)
 __CPROVER_requires(CFG_RUN ? self->_self.caller == 0 : (__CPROVER_is_fresh(self->_self.caller, sizeof(Core))))
-__CPROVER_assigns(g_ci_calls, g_ci_arg, g_loops, g_loop_prev, g_loop_curr)
+__CPROVER_requires(g_mv_calls == 0)
+__CPROVER_assigns(g_ci_calls, g_ci_arg, g_loops, g_loop_prev, g_loop_curr, g_mv_calls, g_mv_cond, g_mv_core)
+/* ... taking its input by move only from a unique predecessor */
+__CPROVER_ensures(CFG_RUN ? g_mv_calls == 0 : (g_mv_calls == 1 && g_mv_core == OLD(self->_self.caller) && (g_mv_cond != 0) == !CFG_FROM_SHARED))
 /* Call: the step runs exactly once - a first step on nothing, a continuation on its predecessor's Result - and whatever it hands on is driven by Loop */
 __CPROVER_ensures(g_ci_calls == 1 && g_loops == 1 && g_loop_prev == self && g_loop_curr == g_ci_ret)
 __CPROVER_ensures(CFG_RUN ? (CFG_ARGVOID ? g_ci_arg.kind == K_UNIT : (g_ci_arg.kind == K_RESULT && g_ci_arg.state == RS_Value))
                           : (g_ci_arg.kind == K_RESULT && g_ci_arg.state == self->_self.caller->_result.state && g_ci_arg.tag == self->_self.caller->_result.tag))
 """
-            harness = 'void harness(void) { ghost_reset(); g_ci_calls = 0; g_loops = 0; Core* self; Call(self); VF_CANARY("end"); }\n'
+            harness = 'void harness(void) { ghost_reset(); g_ci_calls = 0; g_loops = 0; g_mv_calls = 0; Core* self; Call(self); VF_CANARY("end"); }\n'
             out.append(Job('core/Call.%s.a%d' % (nm, av), props, head2 + contract + '{' + c_call + '}\n' + harness, 'harness', enforce='Call', replace=['CallImpl', 'Loop', 'MoveOrConst'],
                            funcs=[B['Core::Call']], expect=[r'postcondition'], meta={'fn': 'Core::Call', 'cfg': cfg2}))
         contract = """void Drop(Core* self)
